@@ -676,6 +676,7 @@ fn damage(nodes: &mut Vec<Node>, rng: &mut Rng) -> String {
 fn bytes_stream(driver: &Driver, st: &mut Stream, std: &mut Stream, seed: u64, cases: impl Iterator<Item = u64>) {
     let mut reqs = vec![];
     let mut reqs_d = vec![];
+    let mut reqs_a = vec![];
     let mut imps = vec![];
     for case in cases {
         let mut rng = Rng::derive(seed, "c07.bytes", case);
@@ -695,6 +696,7 @@ fn bytes_stream(driver: &Driver, st: &mut Stream, std: &mut Stream, seed: u64, c
         st.count(&format!("max_level={:02}", maxlevel));
         reqs.push(format!("c07.bytes {} {} @c07.bytes/{}/{}", nq, crate::driver::hex(&w.bytes), seed, case));
         reqs_d.push(format!("c07.bytesd {} {} @c07.bytes/{}/{}", nq, crate::driver::hex(&w.bytes), seed, case));
+        reqs_a.push(format!("c07.agree {} @c07.bytes/{}/{}", crate::driver::hex(&w.bytes), seed, case));
         imps.push(imp);
     }
     let resp = driver.ask(&reqs);
@@ -705,6 +707,12 @@ fn bytes_stream(driver: &Driver, st: &mut Stream, std: &mut Stream, seed: u64, c
     let resp = driver.ask(&reqs_d);
     for ((rq, m), i) in reqs_d.iter().zip(resp.iter()).zip(imps.iter()) {
         std.case(rq, m, i, rq.len() > 600);
+    }
+    // the hypothesis `DerivedAgrees` of `page_nth_bytes_partial2`, evaluated on every object of every file
+    let resp = driver.ask(&reqs_a);
+    for (rq, m) in reqs_a.iter().zip(resp.iter()) {
+        std.count(if m == "1" { "derived_agrees_with_nodeOf=yes" } else { "derived_agrees_with_nodeOf=no" });
+        std.case(rq, m, "1", rq.len() > 600);
     }
 }
 
